@@ -451,6 +451,8 @@ def c18e(tree, ob):
                 for (st, val) in norm.local_assigns(func, recv.id) or norm.local_assigns(enclosing(func, (ast.FunctionDef,)) or func, recv.id):
                     if isinstance(val, ast.Call) and (call_name(val) or '').endswith('dbus.Interface') and len(val.args) == 2:
                         iface = val.args[1]
+            if iface is None and isinstance(recv, ast.Call) and (call_name(recv) or '').endswith('dbus.Interface') and len(recv.args) == 2:
+                iface = recv.args[1]   # dbus.Interface(obj, IFACE).connect_to_signal(...)
             ob.require(iface is not None, 'cannot resolve the D-Bus interface of {}'.format(src(call)[:60]))
             ifname = None
             if isinstance(iface, ast.Attribute) and iface.attr == 'DBUS_IFACE':
